@@ -3,5 +3,5 @@ Require Extraction.
 Require Import ExtrOcamlBasic.
 Require Import Base Suggestion Ignore.
 Extraction Language OCaml.
-Extraction "../ocaml/gen/c14_model.ml" run_context_indices run_same_context context_v
+Extraction "../ocaml/gen/c14_model.ml" run_context_indices run_same_context context
   run_export run_import import_into render_num ctx_eqb ignore_lint is_ignored remove_ignored ig_append.
